@@ -44,6 +44,7 @@ pub open spec fn hdr_of<T: MaybeDynSized<Header = TagHeader> + ?Sized>(r: &T) ->
 impl NetworkTag {
 //@extract multiboot2/src/network.rs :: impl NetworkTag :: fn new
 //@  ret r
+//@  optional
 //@  rewrite /Self::ID/ => /TagType::Network/
 //@  rewrite /new_boxed\(header, &\[(\w+)\]\)/ => /{ let parts: [&[u8]; 1] = [\1]; proof { assert(parts@ =~= Seq::<&[u8]>::empty().push(\1)); } new_boxed(header, parts.as_slice()) }/
 //@  prologue proof { lemma_mb2_layouts(); }
@@ -59,6 +60,7 @@ impl NetworkTag {
 impl SmbiosTag {
 //@extract multiboot2/src/smbios.rs :: impl SmbiosTag :: fn new
 //@  ret r
+//@  optional
 //@  rewrite /Self::ID/ => /TagType::Smbios/
 //@  rewrite /let reserved = \[0, 0, 0, 0, 0, 0\];/ => /let reserved: [u8; 6] = [0, 0, 0, 0, 0, 0];/
 //@  rewrite /new_boxed\(header, &\[&\[(\w+), (\w+)\], &(\w+), (\w+)\]\)/ => /{ let a0: [u8; 2] = [\1, \2]; let p0: &[u8] = a0.as_slice(); let p1: &[u8] = \3.as_slice(); let parts: [&[u8]; 3] = [p0, p1, \4]; proof { assert(parts@ =~= Seq::<&[u8]>::empty().push(p0).push(p1).push(\4)); assert(p0@ =~= seq![\1, \2]); assert(p1@ =~= seq![0u8, 0u8, 0u8, 0u8, 0u8, 0u8]); } new_boxed(header, parts.as_slice()) }/
@@ -77,6 +79,7 @@ impl SmbiosTag {
 impl ElfSectionsTag {
 //@extract multiboot2/src/elf_sections.rs :: impl ElfSectionsTag :: fn new
 //@  ret r
+//@  optional
 //@  rewrite /Self::ID/ => /TagType::ElfSections/
 //@  rewrite /(\w+)\.to_ne_bytes\(\)/ => /ne_bytes_u32(\1)/ x3
 //@  rewrite /new_boxed\(\s*header,\s*&\[&(\w+), &(\w+), &(\w+), (\w+)\],?\s*\)/ => /{ let p0: &[u8] = \1.as_slice(); let p1: &[u8] = \2.as_slice(); let p2: &[u8] = \3.as_slice(); let parts: [&[u8]; 4] = [p0, p1, p2, \4]; proof { assert(parts@ =~= Seq::<&[u8]>::empty().push(p0).push(p1).push(p2).push(\4)); } new_boxed(header, parts.as_slice()) }/
@@ -95,6 +98,7 @@ impl ElfSectionsTag {
 impl EFIMemoryMapTag {
 //@extract multiboot2/src/memory_map.rs :: impl EFIMemoryMapTag :: fn new_from_map
 //@  ret r
+//@  optional
 //@  rewrite /Self::ID/ => /TagType::EfiMmap/
 //@  rewrite /(\w+)\.to_ne_bytes\(\)/ => /ne_bytes_u32(\1)/ x2
 //@  rewrite /new_boxed\(header, &\[&(\w+), &(\w+), (\w+)\]\)/ => /{ let p0: &[u8] = \1.as_slice(); let p1: &[u8] = \2.as_slice(); let parts: [&[u8]; 3] = [p0, p1, \3]; proof { assert(parts@ =~= Seq::<&[u8]>::empty().push(p0).push(p1).push(\3)); } new_boxed(header, parts.as_slice()) }/
@@ -112,6 +116,7 @@ impl EFIMemoryMapTag {
 impl MemoryMapTag {
 //@extract multiboot2/src/memory_map.rs :: impl MemoryMapTag :: fn new
 //@  ret r
+//@  optional
 //@  rewrite /Self::ID/ => /TagType::Mmap/
 //@  rewrite /\(mem::size_of::<MemoryArea>\(\) as u32\)\.to_ne_bytes\(\)/ => /ne_bytes_u32(mem::size_of::<MemoryArea>() as u32)/
 //@  rewrite /0_u32\.to_ne_bytes\(\)/ => /ne_bytes_u32(0_u32)/
